@@ -369,13 +369,100 @@ def possibly_unbound(ctx, f):
         t = n.ast
         if isinstance(t, ast.Constant):
             return bool(t.value)
+        neg = False
+        while isinstance(t, ast.UnaryOp) and isinstance(t.op, ast.Not):
+            neg, t = not neg, t.operand
         if isinstance(t, ast.Name) and t.id in names:
             outside = [f.defs[i] for i in f.reaching(n.id, t.id) if f.defs[i].node not in bodies[n.id]]
             return bool(outside) and all(d.kind == 'assign' and not d.path and isinstance(d.value, ast.Constant) and
-                                         bool(d.value.value) for d in outside)
+                                         bool(d.value.value) != neg for d in outside)
         return False
     once = {i for i in bodies if runs_once(f.nodes[i])}
     dback = {i: ALL for i in once}        # state carried by the back edges of loops that run at least once
+    back_seen = set()
+
+    def out_on_edge(n, s):
+        leaving = n.kind in ('for', 'while') and s not in bodies.get(n.id, ())
+        if leaving and n.id in once:
+            cur = set(dback[n.id]) if n.id in back_seen else set(ALL)       # left only after a complete first round
+        else:
+            cur = set(din[n.id])
+        b = bind.get(n.id, set())
+        if n.kind == 'for' and leaving and n.id not in once:
+            b = set()          # leaving the loop without an iteration: the loop variables were never bound
+        cur |= b
+        cur -= dele.get(n.id, set())
+        return cur
+    # ---- mode atoms: parameter-only boolean terms tested more than once (is_faster, verbose, `x is None`): the analysis is
+    # repeated under every assignment of them, with the contradicting branch edges removed, so that correlated tests
+    # (bind under `if flag:`, read under `if flag:`) are followed consistently
+    from ..finite import feval, UNKNOWN
+    from ..core import walk_term
+    tests = {}
+    for n in f.nodes:
+        if n.kind in ('test', 'while') and n.ast is not None:
+            try:
+                tests[n.id] = f.term(n.ast, n)
+            except AnalysisError:
+                pass
+    count = {}
+    for t in tests.values():
+        seen_here = set()
+        for x in walk_term(t):
+            leaf = None
+            if x[0] == 'v' and x[2] == 'P':
+                leaf = x
+            elif x[0] == 'cmp' and x[1] in ('is', 'is not') and x[3] == ('c', None) and x[2][0] == 'v' and x[2][2] == 'P':
+                leaf = ('cmp', 'is', x[2], x[3])
+            if leaf is not None and leaf not in seen_here:
+                seen_here.add(leaf)
+                count[leaf] = count.get(leaf, 0) + 1
+    # a bare parameter that is also compared with None is represented by the comparison only
+    none_tested = {l[2] for l in count if l[0] == 'cmp'}
+    atoms = sorted((l for l, c in count.items() if c >= 2 and not (l[0] == 'v' and l in none_tested)), key=repr)[:5]
+    import itertools
+    assignments = [dict(zip(atoms, bits)) for bits in itertools.product((False, True), repeat=len(atoms))] or [{}]
+
+    def edge_ok(n, s, assign):
+        if n.id not in tests or not assign or len(n.succ) != 2:
+            return True
+
+        def at(x):
+            if x in assign:
+                return assign[x]
+            if x[0] == 'cmp' and x[1] == 'is not' and ('cmp', 'is') + x[2:] in assign:
+                return not assign[('cmp', 'is') + x[2:]]
+            return UNKNOWN
+        v = feval(tests[n.id], at)
+        if v is UNKNOWN:
+            return True
+        pols = {}
+        for s2 in n.succ:
+            for _t, p_, tid in f.nodes[s2].conds:
+                if tid == n.id:
+                    pols[s2] = p_
+        if len(pols) == 1:                      # the other edge is the complementary one
+            (k1, p1), = pols.items()
+            for s2 in n.succ:
+                if s2 != k1:
+                    pols[s2] = not p1
+        if s not in pols:
+            return True
+        return pols[s] == bool(v)
+    all_hits = None
+    for assign in assignments:
+        hits_a = _unbound_under(ctx, f, names, params, bind, dele, ALL, bodies, once, lambda n, s, a=assign: edge_ok(n, s, a))
+        all_hits = hits_a if all_hits is None else (all_hits | hits_a)
+    hits = []
+    for nid, name in sorted(all_hits or ()):
+        hits.append((f.nodes[nid], name))
+    return hits
+
+
+def _unbound_under(ctx, f, names, params, bind, dele, ALL, bodies, once, edge_ok):
+    din = {n.id: ALL for n in f.nodes}
+    din[f.entry.id] = frozenset(params)
+    dback = {i: ALL for i in once}
     back_seen = set()
 
     def out_on_edge(n, s):
@@ -400,6 +487,8 @@ def possibly_unbound(ctx, f):
         i = work.pop()
         n = f.nodes[i]
         for s in n.succ:
+            if not edge_ok(n, s):
+                continue
             o = frozenset(out_on_edge(n, s))
             changed_ = False
             if s in once and i in bodies[s]:
@@ -435,6 +524,7 @@ def possibly_unbound(ctx, f):
             if set(ctx.conds(f, bn)) <= uc and ctx.conds(f, bn):
                 return True
         return False
+    out = set()
     for n in f.nodes:
         if n.id not in seen_once and n.id != f.entry.id:
             continue            # unreachable
@@ -452,12 +542,13 @@ def possibly_unbound(ctx, f):
             for x in ast.walk(r):
                 if isinstance(x, ast.Name) and isinstance(x.ctx, ast.Load) and x.id in names and x.id not in scoped and \
                         x.id not in din[n.id] and not guarded_like_a_binding(n, x.id):
-                    hits.append((n, x.id))
+                    out.add((n.id, x.id))
         # an augmented assignment reads its target first
         for d in n.defs:
-            if d.kind == 'aug' and isinstance(n.stmt, ast.AugAssign) and d.name in names and d.name not in din[n.id]:
-                hits.append((n, d.name))
-    return hits
+            if d.kind == 'aug' and isinstance(n.stmt, ast.AugAssign) and d.name in names and d.name not in din[n.id] and \
+                    not guarded_like_a_binding(n, d.name):
+                out.add((n.id, d.name))
+    return out
 
 
 def r_unbound(ctx, entries):
